@@ -46,6 +46,14 @@ CFG = {
         "Leptos.ServerFn.C13_text_stream_generic",
         "Leptos.ServerFn.prefix_analysis",
         "Leptos.ServerFn.C13_rechunk_flatten",
+        # streamed responses: item sequences with Err items at any position
+        "Leptos.ServerFn.C13_text_out_roundtrip",
+        "Leptos.ServerFn.C13_text_out_first_error",
+        "Leptos.ServerFn.C13_text_decode_keeps_errors",
+        "Leptos.ServerFn.C13_text_out_wire_complete",
+        "Leptos.ServerFn.C13_bytes_out_roundtrip",
+        "Leptos.ServerFn.C13_bytes_out_error_value",
+        "Leptos.ServerFn.de_wellFormed",
         # regression witnesses for the repaired F-C13-2 (old per-chunk decoder)
         "Leptos.ServerFn.C13_text_stream_witness",
         "Leptos.ServerFn.C13_text_stream_old_false",
@@ -59,7 +67,8 @@ CFG = {
             "bases with and without query/fragment/stale error pairs, hostile base64; observable = bytes/strings, compared with the "
             "model byte for byte. (b) pipeline: #[server] functions over every codec pair available offline (Json, GetUrl, PostUrl, "
             "DeleteUrl, PatchUrl, PutUrl, Cbor, MsgPack, Postcard, Rkyv, SerdeLite, Patch/Put variants, mixed pairs, a custom error "
-            "type, streaming text/bytes) called through a loop-back Client -> generic http::Request<Bytes> -> run_on_server; "
+            "type, streaming text/bytes as input, and as OUTPUT with Err items at every position of the item sequence: first, middle, "
+            "last, several, only errors) called through a loop-back Client -> generic http::Request<Bytes> -> run_on_server; "
             "observable = canonicalised Ok/Err, oracle = equals the direct call; canned responses for the status rule, hand-built "
             "requests for the server half. (c) TESTING (not proof): truncated / bit-flipped / extended request and response bodies "
             "under catch_unwind for every codec, oracle = an Ok or an Err of the declared type, never a panic. "
@@ -81,6 +90,8 @@ CFG = {
         "ServerFnUrlError::{to_url, decode_err, strip_error_info}", "Http::{run_client, run_server}", "ServerFn::run_on_server",
         "Res::error_response (generic)", "Req for http::Request<Bytes> (as_query, try_into_string, try_into_bytes, try_into_stream)",
         "IntoReq/FromReq of GetUrl, PostUrl, DeleteUrl, PatchUrl, PutUrl, Post<C>, Patch<C>, Put<C>",
+        "IntoRes/FromRes of StreamingText (TextStream) and Streaming (ByteStream), TryRes::try_from_stream (generic): every item relayed, "
+        "an Err item as ser() bytes, decoded with E::de",
         "decode_text_chunks (FromReq/FromRes of StreamingText: incomplete UTF-8 tail carried to the next chunk)",
     ],
     "assumptions": [
@@ -88,6 +99,8 @@ CFG = {
         "browser / reqwest / axum / actix back ends are not exercised: the client half is the harness' LoopReq/LoopRes "
         "(same constructor semantics as request/reqwest.rs), the server half is the generic http::Request<Bytes> back end",
         "websocket protocol not covered (no executor-independent transport offline)",
+        "a failed item of a streamed response travels as the Display text of the throw_error::Error the generic Body::Async carries "
+        "(= ServerFnErrorWrapper = ser() for text error encoders); error types with a *binary* Encoder are not exercised on that path",
         "custom error payloads: the round trip of WrappedServerError(E) is stated under E's own Display/FromStr round trip",
         "base URLs given to to_url / strip_error_info are already in the url crate's normal form",
     ],
